@@ -97,6 +97,7 @@ fn check_site(site: &CallSite, cfg: &Cfg) -> SiteResult {
     args.list_len = cfg.list_len;
     args.choice_at = cfg.choice_at;
     args.choice = 0;
+    args.insert_at_begin = cfg.insert_begin;
     // ids are taken from the builder: a pool of 320 is reserved up front and the arguments are drawn from it
     args.word_base = 1;
     args.word_step = 16;
@@ -148,7 +149,9 @@ fn check_site(site: &CallSite, cfg: &Cfg) -> SiteResult {
             b.begin_function(rty, Some(fid), spirv::FunctionControl::NONE, fty).map_err(|e| ("setup".to_string(), format!("{:?}", e)))?;
             b.begin_block(Some(lid)).map_err(|e| ("setup".to_string(), format!("{:?}", e)))?;
             if cfg.insert_begin {
-                b.nop().map_err(|e| ("setup".to_string(), format!("{:?}", e)))?;
+                // an instruction no measured call can emit identically (its result id is one no call receives)
+                let uid = b.id();
+                b.undef(rty, Some(uid));
             }
         }
         if cfg.prior_identical {
@@ -218,9 +221,12 @@ fn check_site(site: &CallSite, cfg: &Cfg) -> SiteResult {
         }
         if in_blk {
             let idx_in_block = after[..pos].iter().filter(|x| x.0 == want_path).count();
-            let want_idx = before.iter().filter(|x| x.0 == want_path).count();
+            let has_ip = site.params.iter().any(|p| p.ty == Ty::InsertPoint);
+            let at_end = before.iter().filter(|x| x.0 == want_path).count();
+            // InsertPoint::Begin: in front of the one instruction (OpUndef) the setup put into the block
+            let want_idx = if cfg.insert_begin && has_ip { at_end - 1 } else { at_end };
             if idx_in_block != want_idx {
-                return Err(("placement".into(), format!("emitted at index {} of the block, expected {} (appended at the end)", idx_in_block, want_idx)));
+                return Err(("placement".into(), format!("emitted at index {} of the block, expected {}", idx_in_block, want_idx)));
             }
         }
         // ---- C16 (Builder half): the block is ended exactly for the opcodes the terminator predicate accepts
@@ -246,6 +252,9 @@ fn check_site(site: &CallSite, cfg: &Cfg) -> SiteResult {
         if b.selected_block().is_some() {
             b.ret().map_err(|e| ("setup".to_string(), format!("{:?}", e)))?;
         }
+        // a terminator inserted in front of other instructions leaves a block the loader would split differently:
+        // the round trip is only meaningful when the terminator is last
+        let terminator_not_last = in_blk && cfg.insert_begin && g.in_class("terminator", site.opcode) && site.params.iter().any(|p| p.ty == Ty::InsertPoint);
         if b.selected_function().is_some() {
             b.end_function().map_err(|e| ("setup".to_string(), format!("{:?}", e)))?;
         }
@@ -264,6 +273,9 @@ fn check_site(site: &CallSite, cfg: &Cfg) -> SiteResult {
             }
         }
         let words = m.assemble();
+        if terminator_not_last {
+            return Ok(());
+        }
         match dr::load_words(&words) {
             Err(e) => return Err(("load-fails".into(), format!("the assembled module does not load: {} ({})", e, emitted.short()))),
             Ok(m2) => {
@@ -420,10 +432,8 @@ fn apply(b: &mut Builder, o: HOp, t64: &mut Option<u32>) -> bool {
             b.variable(50, None, spirv::StorageClass::Private, None);
         }
         HOp::Line => {
-            // OpLine inside a function but outside a block is the documented limitation: not generated
-            if b.selected_function().is_some() && b.selected_block().is_none() {
-                return false;
-            }
+            // with no block selected (even between two blocks of a function) the documentation sends it to
+            // types_global_values: the built module then has it there, and so must the loaded one
             b.line(3, 1, 2)
         }
         HOp::SetVersion => {
@@ -564,8 +574,10 @@ fn c12_sweep(sites: &[&CallSite]) -> (u64, Vec<Viol>) {
         .par_iter()
         .map(|site| {
             let mut out = vec![];
-            for ctx in 0..3 {
-                // 0: nothing open; 1: function open, no block; 2: block open and then closed by a terminator
+            for ctx in 0..4 {
+                // 0: nothing open; 1: function open, no block; 2: block open and then closed by a terminator;
+                // 3: block open (holding one instruction): the call succeeds, appends exactly one instruction to that
+                //    block, and closes the block iff the opcode is a block-termination instruction of the specification
                 let mut args = Args::new(site.params);
                 args.word_base = 1;
                 args.word_step = 16;
@@ -584,6 +596,10 @@ fn c12_sweep(sites: &[&CallSite]) -> (u64, Vec<Viol>) {
                         b.nop().map_err(|e| format!("{:?}", e))?;
                         b.ret().map_err(|e| format!("{:?}", e))?;
                     }
+                    if ctx == 3 {
+                        b.begin_block(None).map_err(|e| format!("{:?}", e))?;
+                        b.nop().map_err(|e| format!("{:?}", e))?;
+                    }
                     let before = snap(b.module_ref());
                     let sel = (b.selected_function(), b.selected_block());
                     let ret = (site.call)(&mut b, &args);
@@ -591,6 +607,36 @@ fn c12_sweep(sites: &[&CallSite]) -> (u64, Vec<Viol>) {
                     let sel2 = (b.selected_function(), b.selected_block());
                     let failed = matches!(ret, Out::ResWord(Err(_)) | Out::ResUnit(Err(_)));
                     let fallible = matches!(ret, Out::ResWord(_) | Out::ResUnit(_));
+                    if ctx == 3 {
+                        if !needs_block(site) {
+                            if sel2 != sel {
+                                return Err(format!("a module-level method changed the selection from {:?} to {:?}", sel, sel2));
+                            }
+                            return Ok(());
+                        }
+                        if failed {
+                            return Err("returned Err although a block is selected".into());
+                        }
+                        let g = golden();
+                        let (fb, fa) = (flatten(&before), flatten(&after));
+                        let in_block = |v: &[(String, Inst)]| v.iter().filter(|x| x.0 == "f0.b0").count();
+                        if fa.len() != fb.len() + 1 || in_block(&fa) != in_block(&fb) + 1 {
+                            return Err(format!("did not append exactly one instruction to the selected block: {} -> {}", before.brief(), after.brief()));
+                        }
+                        let must = g.in_class("terminator", site.opcode);
+                        let either = g.in_class("either", site.opcode);
+                        let closed = sel2.1.is_none();
+                        if sel2.0 != sel.0 {
+                            return Err(format!("changed the selected function from {:?} to {:?}", sel.0, sel2.0));
+                        }
+                        if !either && closed != must {
+                            return Err(format!("{} the block, but Op{} is {}a block-termination instruction", if closed { "closed" } else { "did not close" }, site.opcode, if must { "" } else { "not " }));
+                        }
+                        if !closed && sel2 != sel {
+                            return Err(format!("changed the selection from {:?} to {:?}", sel, sel2));
+                        }
+                        return Ok(());
+                    }
                     if needs_block(site) {
                         if !failed {
                             return Err(format!("returned Ok with no block selected (selection {:?})", sel));
@@ -627,7 +673,7 @@ fn c12_sweep(sites: &[&CallSite]) -> (u64, Vec<Viol>) {
     for v in res {
         all.extend(v);
     }
-    (sites.len() as u64 * 3, all)
+    (sites.len() as u64 * 4, all)
 }
 
 fn main() {
